@@ -133,6 +133,20 @@ func c05Lattice(run *mon.Run, rng *mon.Rand) {
 					}
 					run.Check("C05.last_finalized_query", err == nil && lf.OutputIndex == want, "c05.last_finalized", tr, "LastFinalizedOutput=%v, expected index %d", lf, want)
 				}
+				// self-consistency once the chain has shown the output as final (also inside the one-second band):
+				// after a withdrawal was paid against it, or after the query named it, it can no longer be deleted
+				if res.Class == sim.OK {
+					d2 := b1.L1.Deliver(ophosttypes.NewMsgDeleteOutput(env.Bridges[1].Challenger.String(), 1, 1))
+					run.Evaluations++
+					run.Check("C05.final_is_irreversible", d2.Class != sim.OK, "c05.deleted_after_payout", tr, "output deleted after a withdrawal had been finalized against it (T0+P%+d ns)", int64(off))
+				}
+				if err == nil && lf.OutputIndex >= 1 {
+					b3 := env.Branch()
+					b3.L1.SetTime(target)
+					d3 := b3.L1.Deliver(ophosttypes.NewMsgDeleteOutput(env.Bridges[1].Challenger.String(), 1, 1))
+					run.Evaluations++
+					run.Check("C05.final_is_irreversible", d3.Class != sim.OK, "c05.deleted_while_query_says_final", tr, "output deleted in a block in which LastFinalizedOutput names it (T0+P%+d ns)", int64(off))
+				}
 				run.Distinct(fmt.Sprintf("C05/lattice/p=%d/frac=%d/off=%d/%s/%s", int64(p), int64(frac), int64(off), res.Class, dres.Class))
 			}
 		}
